@@ -241,6 +241,39 @@ fn impl_header(im: &ItemImpl) -> String {
     s.to_string()
 }
 
+/// N11e: the content of the first brace group that follows the (whitespace-free) anchor text at some nesting level of `ts`
+fn find_group(ts: TokenStream, anchor: &str) -> Option<TokenStream> {
+    let toks: Vec<proc_macro2::TokenTree> = ts.into_iter().collect();
+    let mut concat = String::new();
+    let mut starts = vec![];
+    for t in &toks {
+        starts.push(concat.len());
+        let s: String = t.to_string().chars().filter(|c| !c.is_whitespace()).collect();
+        concat.push_str(&s);
+    }
+    // the anchor has to cover whole tokens of this level
+    for i in 0..toks.len() {
+        if concat[starts[i]..].starts_with(anchor) {
+            let end = starts[i] + anchor.len();
+            if let Some(j) = starts.iter().position(|s| *s == end) {
+                if let proc_macro2::TokenTree::Group(g) = &toks[j] {
+                    if g.delimiter() == proc_macro2::Delimiter::Brace {
+                        return Some(g.stream());
+                    }
+                }
+            }
+        }
+    }
+    for t in toks {
+        if let proc_macro2::TokenTree::Group(g) = t {
+            if let Some(r) = find_group(g.stream(), anchor) {
+                return Some(r);
+            }
+        }
+    }
+    None
+}
+
 fn has_await(b: &Block) -> bool {
     struct V(bool);
     impl<'ast> syn::visit::Visit<'ast> for V {
@@ -469,6 +502,36 @@ fn emit_fn(out: &mut Value, req: &Value, sig: &Signature, block: &Block, impl_hd
     let mut n = Norm::new(req);
     if sig.asyncness.is_some() {
         n.log("N10-async-without-await", sig.ident.span());
+    }
+    // N11e (slice inside a macro invocation, e.g. an arm of `tokio::select!`): the first `{ .. }` token group that follows the anchor
+    // tokens anywhere in the function's token tree becomes the body (the tokens are the real ones; they are parsed as a block)
+    if let Some(anchor) = req["slice_group"].as_str() {
+        let a: String = anchor.chars().filter(|c| !c.is_whitespace()).collect();
+        match find_group(b.to_token_stream(), &a) {
+            Some(ts) => match syn::parse2::<Block>(quote!({ #ts })) {
+                Ok(nb) => {
+                    b = nb;
+                    if let Some(tail) = req["slice_tail"].as_str() {
+                        let te: Expr = syn::parse_str(tail).expect("slice_tail");
+                        // statement-position tail of the arm gets its semicolon
+                        if let Some(Stmt::Expr(e, semi @ None)) = b.stmts.last_mut() {
+                            let _ = e;
+                            *semi = Some(Default::default());
+                        }
+                        b.stmts.push(Stmt::Expr(te, None));
+                    }
+                    n.log("N11e-slice-token-group", sig.ident.span());
+                }
+                Err(e) => {
+                    out["error"] = json!(format!("UNSUPPORTED slice_group: the token group does not parse as a block: {}", e));
+                    return;
+                }
+            },
+            None => {
+                out["error"] = json!(format!("LOST-ANCHOR slice_group not found: {}", anchor));
+                return;
+            }
+        }
     }
     // optional nested slice (N11): one inner statement becomes the body
     if let Some(anchor) = req["slice_stmt"].as_str() {
